@@ -48,6 +48,7 @@ class SessionReplayer:
         from tf_pwa.config import regist_config
 
         self.use_tf_function = use_tf_function
+        self.model_name = model
         self.seed = seed
         self.ff_method = fit_fraction_method
         if model == "3body":
